@@ -21,7 +21,7 @@ sys.setrecursionlimit(20000)
 def main():
     ap = argparse.ArgumentParser()
     ap.add_argument("prop", choices=["C06", "C07", "C12", "C15", "C16", "C01",
-                                     "C13", "C14", "C07S", "C02S", "C01S", "C08S", "C17", "C18"])
+                                     "C13", "C14", "C07S", "C02S", "C01S", "C08S", "C10S", "C17", "C18"])
     ap.add_argument("--tier", choices=["quick", "thorough"], default="quick")
     ap.add_argument("--out", default=None)
     ap.add_argument("--layouts", default=None, help="comma separated subset of layouts (C16/C01/C14)")
@@ -61,6 +61,9 @@ def main():
     elif args.prop == "C07S":
         import c07s
         res = c07s.run(args.tier)
+    elif args.prop == "C10S":
+        import c10s
+        res = c10s.run(args.tier)
     elif args.prop in ("C01S", "C08S", "C02S"):
         import cstark
         res = cstark.run(args.prop, args.tier)
